@@ -130,7 +130,8 @@ def constructor_facts(ctx, ci):
                     tab["grid_stmt"] = s
             elif is_self_attr(t) and t.attr.startswith("_lut"):
                 tabs.setdefault(t.attr, {"law_cols": {}, "grid_col": None, "grid_stmt": None, "law_args": {}})
-                tabs[t.attr]["create_stmt"] = s
+                if isinstance(s.value, ast.Call) and call_name(s.value) in ("pd.DataFrame", "pandas.DataFrame"):
+                    tabs[t.attr]["create_stmt"] = s
         if tabs:
             facts[fi.key] = (fi, tabs)
     if len(facts) < 2:
@@ -270,6 +271,29 @@ def run(ctx):
                 elif len(args) == 2 and d["law_cols"].get(args[0][1]) is None:
                     ctx.violated(fi, d["create_stmt"], "column %s.%s: first argument is not a law column" % (tab, col),
                                  text="%s.%s" % (tab, col))
+
+    # ---------------------------------------------------------- R-C07-8: tables are built once, never replaced or re-ordered
+    ctx.rule("R-C07-8", floor=4, what="look-up tables are created by DataFrame construction only and never re-ordered afterwards")
+    REORDER = ("sort_index", "sort_values", "reindex", "sample", "reorder_levels", "swaplevel", "reset_index", "set_index", "take")
+    for name, defs in ci.methods.items():
+        fi = defs[-1]
+        for st in walk_function(fi.node):
+            if isinstance(st, ast.Assign):
+                for t in st.targets:
+                    if is_self_attr(t) and t.attr.startswith("_lut"):
+                        v = st.value
+                        if isinstance(v, ast.Call) and call_name(v) in ("pd.DataFrame", "pandas.DataFrame"):
+                            ctx.holds(fi, st, "%s created by DataFrame construction" % t.attr)
+                        else:
+                            ctx.violated(fi, st, "table %s is replaced by %s after its construction: the look-ups pair table rows with "
+                                         "the load series by position, so the row order (class x given point order) must not change"
+                                         % (t.attr, norm_text(v)[:80]))
+                    if isinstance(t, ast.Attribute) and t.attr == "index" and is_self_attr(t.value) and t.value.attr.startswith("_lut"):
+                        ctx.violated(fi, st, "index of table %s is replaced after construction" % t.value.attr)
+            if isinstance(st, ast.Expr) and isinstance(st.value, ast.Call) and isinstance(st.value.func, ast.Attribute) and \
+                    st.value.func.attr in REORDER and is_self_attr(st.value.func.value) and st.value.func.value.attr.startswith("_lut") \
+                    and any(k.arg == "inplace" and const_value(k.value) is True for k in st.value.keywords):
+                ctx.violated(fi, st, "table %s is re-ordered in place" % st.value.func.value.attr)
 
     # ---------------------------------------------------------- reader side
     ctx.rule("R-C07-1", floor=12, what="every table-value return is dominated by a raising range guard on its own search result")
@@ -635,6 +659,18 @@ def variants():
             return True
         return False
     out.append(witness("multi-point ctor fills delta_stress from primary law", PATH, swap_law, "R-C07-7"))
+
+    def sort_tables(tree):
+        m = find_func(tree, "Binned._create_bins_multiple_assessment_points")
+        m.body.append(parse_stmt("self._lut_primary_branch = self._lut_primary_branch.sort_index()"))
+        return True
+    out.append(witness("per-point table re-sorted after construction", PATH, sort_tables, "R-C07-8"))
+
+    def sort_inplace(tree):
+        m = find_func(tree, "Binned._create_bins_multiple_assessment_points")
+        m.body.append(parse_stmt("self._lut_secondary_branch.sort_index(inplace=True)"))
+        return True
+    out.append(witness("per-point table sorted in place", PATH, sort_inplace, "R-C07-8"))
 
     # ---- twins
     def both_offsets(tree):
